@@ -12,6 +12,9 @@ FILTER=${1:-}
 T=${SELFTEST_TMP:-/tmp/vlab-selftest}
 LANES=${SELFTEST_LANES:-4}
 mkdir -p $T
+# The sweep builds from a copy of lab/ taken now.
+rsync -a --delete --exclude target /verif/lab/ $T/lab-snap/
+export VLAB_LAB_SRC=$T/lab-snap
 OUT=/verif/selftest_results.md
 JOBS=$T/jobs.txt
 : > $JOBS
